@@ -249,11 +249,16 @@ def version_index(v):
 
 
 # ---------------------------------------------------------------- the symbol
+PARTIAL = [None]
+
+
 def read(matrix):
-    """-> (Symbol or None, error string or None)"""
+    """-> (Symbol or None, error string or None); the partial symbol of a failed read is kept in PARTIAL[0]."""
+    PARTIAL[0] = None
     try:
         return qr.read_symbol([list(r) for r in matrix], correct=False), None
     except qr.DecodeError as ex:
+        PARTIAL[0] = getattr(ex, 'partial', None)
         return None, str(ex)
 
 
@@ -614,11 +619,17 @@ def check_symbol(matrix, args, meta=None, props=None):
         # attribute: geometry / format problems are C02; block problems C03; everything is also C01
         prop = 'C03' if err and 'RS codeword' in err else 'C02'
         out.append((prop, 'unreadable', {'error': err}))
-        if on('C01') and prop != 'C01':
+        part = PARTIAL[0]
+        fpe = getattr(part, 'function_pattern_errors', None)
+        if fpe:
+            out.append(('C02', 'function-pattern', {'n': len(fpe), 'classes': sorted({k for _, _, k in fpe}), 'first': fpe[:4],
+                                                    'version': getattr(part, 'version', None)}))
+        # a symbol the reference decoder cannot read satisfies none of the decoding-based properties
+        for pp in ('C01', 'C04', 'C05', 'C06', 'C07', 'C13'):
+            if on(pp) and want is not None:
+                out.append((pp, 'unreadable', {'error': err}))
+        if want is None:
             out.append(('C01', 'unreadable', {'error': err}))
-        if on('C06'):
-            # the stream is not valid under the mask announced by the format information
-            out.append(('C06', 'unreadable-under-announced-mask', {'error': err}))
         return [d for d in out if on(d[0])], None, info
     a = normalize_args(args)
     if 'content' not in args:
